@@ -17,13 +17,15 @@ Proof. unfold sumt. induction a as [|x r IH]; cbn [app fold_right]; [reflexivity
    goes on as B *)
 Definition Follows (C : it) (rest : list (val * nat)) (trail : nat) (B : it) : Prop :=
   (forall r, r <= length rest -> exists j, StepsD C (map fst (firstn r rest)) 0 (sumt (firstn r rest)) j) /\
-  (forall l a b j, l <> [] -> StepsD B l a b j -> exists j', StepsD C (map fst rest ++ l) a (sumt rest + trail + b) j').
+  (forall l a b j, l <> [] -> StepsD B l a b j -> StepsD C (map fst rest ++ l) a (sumt rest + trail + b) j) /\
+  (forall a b, EndsD B a b -> exists j, StepsD C (map fst rest) 0 (sumt rest) j /\ EndsD j a (trail + b)).
 
 Lemma follows_self B : Follows B [] 0 B.
 Proof.
-  split.
+  split; [|split].
   - intros r L. cbn in L. assert (r = 0) by lia. subst. exists B. cbn. repeat split.
-  - intros l a b j _ HS. exists j. cbn. exact HS.
+  - intros l a b j _ HS. cbn. exact HS.
+  - intros a b E. exists B. cbn. split; [repeat split | exact E].
 Qed.
 
 Lemma chain_oflist_yield v rest B : YieldsD (Chain (OfList (v :: rest)) B) v (Chain (OfList rest) B) 0 0.
@@ -58,15 +60,70 @@ Proof.
     exists (Chain (OfList (skipn r rest)) B).
     pose proof (oflist_steps (firstn r rest) (skipn r rest)) as O. rewrite firstn_skipn in O.
     apply (chain_steps B _ _ _ _ _ O).
-  - intros l a b j N HS. rewrite zt_fst, zt_sumt.
-    pose proof (oflist_steps rest []) as O. rewrite app_nil_r in O.
-    pose proof (chain_steps B _ _ _ _ _ O) as C1.
-    exists j. eapply StepsD_eq; [apply (StepsD_app _ _ _ _ _ _ _ _ _ C1 (chain_nil_steps B l a b j N HS)) | lia | lia].
+  - split.
+    + intros l a b j N HS. rewrite zt_fst, zt_sumt.
+      pose proof (oflist_steps rest []) as O. rewrite app_nil_r in O.
+      pose proof (chain_steps B _ _ _ _ _ O) as C1.
+      eapply StepsD_eq; [apply (StepsD_app _ _ _ _ _ _ _ _ _ C1 (chain_nil_steps B l a b j N HS)) | lia | lia].
+    + intros a b E. rewrite zt_fst, zt_sumt. exists (Chain (OfList []) B).
+      pose proof (oflist_steps rest []) as O. rewrite app_nil_r in O. split; [apply (chain_steps B _ _ _ _ _ O)|].
+      eapply EndsD_eq; [apply (chain_ends _ _ _ _ _ _ oflist_ends E) | lia | lia].
 Qed.
 
-(* a step that pulls one inner element and then IS another iterator *)
-Definition PullThen (A i : it) (x : val) (i1 : it) (extra : nat) (X : it) : Prop :=
-  forall dp dt, YieldsD i x i1 dp dt -> forall v j a b, YieldsD X v j a b -> YieldsD A v j (dp + a) (dt + extra + b).
+(* what one pulled input element (cost dp, dt) makes A do: emit [outs] (the first one carries the pull),
+   spend [trail] more ticks, go on as B *)
+Definition FollowsP (A : it) (dp dt : nat) (outs : list (val * nat)) (trail : nat) (B : it) : Prop :=
+  (forall r, 1 <= r <= length outs -> exists j, StepsD A (map fst (firstn r outs)) dp (dt + sumt (firstn r outs)) j) /\
+  (forall l a b j, l <> [] -> StepsD B l a b j ->
+     exists j', StepsD A (map fst outs ++ l) (dp + a) (dt + sumt outs + trail + b) j').
+
+(* A pulls (dp, dt), spends e ticks, and then IS X *)
+Lemma followsP_of_follows A X dp dt e outs trail B :
+  (forall v j a b, YieldsD X v j a b -> YieldsD A v j (dp + a) (dt + e + b)) ->
+  Follows X outs trail B ->
+  match outs with
+  | [] => FollowsP A dp dt [] (e + trail) B
+  | (v, t) :: rest => FollowsP A dp dt ((v, e + t) :: rest) trail B
+  end.
+Proof.
+  intros HP [F1 [F2 _]]. destruct outs as [|[v t] rest].
+  - split; [intros r L; cbn in L; lia|]. intros l a b j N HS. pose proof (F2 l a b j N HS) as HS'.
+    cbn [map app sumt fold_right] in *. destruct l as [|w l']; [contradiction|].
+    destruct HS' as (j1 & a1 & b1 & a2 & b2 & Y1 & HS1 & Ea & Eb). exists j.
+    eapply StepsD_eq; [apply (StepsD_cons _ _ _ _ _ _ _ _ _ (HP _ _ _ _ Y1) HS1) | lia | lia].
+  - split.
+    + intros r L. destruct r as [|r]; [lia|]. cbn [length] in L. destruct (F1 (S r) ltac:(cbn; lia)) as [j HS].
+      cbn [firstn map fst sumt fold_right snd] in *.
+      destruct HS as (j1 & a1 & b1 & a2 & b2 & Y1 & HS1 & Ea & Eb). exists j.
+      eapply StepsD_eq; [apply (StepsD_cons _ _ _ _ _ _ _ _ _ (HP _ _ _ _ Y1) HS1) | lia | lia].
+    + intros l a b j N HS. pose proof (F2 l a b j N HS) as HS'.
+      cbn [map fst app sumt fold_right snd] in *.
+      destruct HS' as (j1 & a1 & b1 & a2 & b2 & Y1 & HS1 & Ea & Eb). exists j.
+      eapply StepsD_eq; [apply (StepsD_cons _ _ _ _ _ _ _ _ _ (HP _ _ _ _ Y1) HS1) | lia | lia].
+Qed.
+
+(* A yields v and continues as C, which follows with the rest *)
+Lemma followsP_yield A v C dp dt t rest trail B :
+  YieldsD A v C dp (dt + t) -> Follows C rest trail B -> FollowsP A dp dt ((v, t) :: rest) trail B.
+Proof.
+  intros Y [F1 [F2 _]]. split.
+  - intros r L. destruct r as [|r]; [lia|]. cbn [length] in L. destruct (F1 r ltac:(lia)) as [j HS]. exists j.
+    cbn [firstn map fst sumt fold_right snd].
+    eapply StepsD_eq; [apply (StepsD_cons _ _ _ _ _ _ _ _ _ Y HS) | lia |].
+    change (fold_right (fun (p : val * nat) (acc : nat) => snd p + acc) 0 (firstn r rest)) with (sumt (firstn r rest)). lia.
+  - intros l a b j N HS. pose proof (F2 l a b j N HS) as HS'. exists j. cbn [map fst app sumt fold_right snd].
+    eapply StepsD_eq; [apply (StepsD_cons _ _ _ _ _ _ _ _ _ Y HS') | lia |].
+    change (fold_right (fun (p : val * nat) (acc : nat) => snd p + acc) 0 rest) with (sumt rest). lia.
+Qed.
+
+(* A drops the input and behaves as B *)
+Lemma followsP_skip A dp dt trail B :
+  (forall v j a b, YieldsD B v j a b -> YieldsD A v j (dp + a) (dt + trail + b)) -> FollowsP A dp dt [] trail B.
+Proof.
+  intro HP. split; [intros r L; cbn in L; lia|]. intros l a b j N HS. cbn [map app sumt fold_right].
+  destruct l as [|w l']; [contradiction|]. destruct HS as (j1 & a1 & b1 & a2 & b2 & Y1 & HS1 & -> & ->). exists j.
+  eapply StepsD_eq; [apply (StepsD_cons _ _ _ _ _ _ _ _ _ (HP _ _ _ _ Y1) HS1) | lia | lia].
+Qed.
 
 Section Transducer.
   Variable Q : Type.
@@ -77,11 +134,8 @@ Section Transducer.
   Variable live : Q -> val -> bool.
 
   (* what the machine must do with one input element *)
-  Hypothesis Hlit : forall q i x i1 dp dt, live q x = true -> YieldsD i x i1 dp dt ->
-    match out q x with
-    | [] => forall v j a b, YieldsD (T (nq q x) i1) v j a b -> YieldsD (T q i) v j (dp + a) (dt + tr q x + b)
-    | (v, t) :: rest => exists C, YieldsD (T q i) v C dp (dt + t) /\ Follows C rest (tr q x) (T (nq q x) i1)
-    end.
+  Hypothesis HF : forall q i x i1 dp dt, live q x = true -> YieldsD i x i1 dp dt ->
+    FollowsP (T q i) dp dt (out q x) (tr q x) (T (nq q x) i1).
 
   Fixpoint touts (q : Q) (xs : list val) : list val :=
     match xs with
@@ -131,34 +185,22 @@ Section Transducer.
     cbn [touts tneed ttks] in *. destruct k as [|k]; [lia|]. destruct (live q x) eqn:Lv; [|cbn in L; lia].
     rewrite app_length, map_length in L.
     destruct (S k <=? length (out q x)) eqn:Q1.
-    - (* within the outputs of the first input *)
-      apply Nat.leb_le in Q1. cbn [firstn] in HS.
+    - apply Nat.leb_le in Q1. cbn [firstn] in HS.
       destruct HS as (i1 & p1 & t1 & p2 & t2 & Y & (-> & -> & ->) & -> & ->).
-      pose proof (Hlit q i x i1 p1 t1 Lv Y) as HL.
-      destruct (out q x) as [|[v t] rest] eqn:O; [cbn in Q1; lia|].
-      destruct HL as (C & YC & FC & _). cbn [length] in Q1.
-      destruct (FC k ltac:(lia)) as [j HSC].
-      exists j. rewrite firstn_app. replace (S k - length (map fst ((v, t) :: rest))) with 0 by (rewrite map_length; cbn; lia).
-      cbn [firstn app map fst]. rewrite app_nil_r. cbn [sumt fold_right snd]. rewrite firstn_map.
-      eapply StepsD_eq; [apply (StepsD_cons _ _ _ _ _ _ _ _ _ YC HSC) | lia |].
-      change (fold_right (fun (p : val * nat) (acc : nat) => snd p + acc) 0 (firstn k rest)) with (sumt (firstn k rest)). lia.
+      destruct (HF q i x i1 p1 t1 Lv Y) as [F1 _]. destruct (F1 (S k) ltac:(lia)) as [j HSj]. exists j.
+      rewrite firstn_app. replace (S k - length (map fst (out q x))) with 0 by (rewrite map_length; lia).
+      rewrite firstn_O, app_nil_r, firstn_map.
+      eapply StepsD_eq; [exact HSj | lia | lia].
     - apply Nat.leb_gt in Q1. cbn [firstn] in HS.
       destruct HS as (i1 & p1 & t1 & p2 & t2 & Y & HS & -> & ->).
       assert (Lk : 1 <= S k - length (out q x) <= length (touts (nq q x) r)) by lia.
       destruct (IH (nq q x) i1 _ Lk _ _ _ HS) as [j HSr].
-      pose proof (Hlit q i x i1 p1 t1 Lv Y) as HL.
+      destruct (HF q i x i1 p1 t1 Lv Y) as [_ F2].
       assert (NE : firstn (S k - length (out q x)) (touts (nq q x) r) <> []).
       { intro E. apply (f_equal (@length val)) in E. rewrite firstn_length in E. cbn [length] in E. lia. }
+      destruct (F2 _ _ _ _ NE HSr) as [j' HS']. exists j'.
       rewrite firstn_app, map_length. rewrite firstn_all2 by (rewrite map_length; lia).
-      destruct (out q x) as [|[v t] rest] eqn:O.
-      + cbn [map app length sumt fold_right] in *.
-        remember (firstn (S k - 0) (touts (nq q x) r)) as l eqn:El. destruct l as [|w l']; [contradiction|].
-        destruct HSr as (j1 & a1 & b1 & a2 & b2 & Y1 & HS1 & Ea & Eb).
-        exists j. eapply StepsD_eq; [apply (StepsD_cons _ _ _ _ _ _ _ _ _ (HL _ _ _ _ Y1) HS1) | lia | lia].
-      + destruct HL as (C & YC & _ & FC). destruct (FC _ _ _ _ NE HSr) as [j' HSC].
-        exists j'. cbn [map fst app sumt fold_right snd].
-        eapply StepsD_eq; [apply (StepsD_cons _ _ _ _ _ _ _ _ _ YC HSC) | lia |].
-        change (fold_right (fun (p : val * nat) (acc : nat) => snd p + acc) 0 rest) with (sumt rest). lia.
+      eapply StepsD_eq; [exact HS' | lia | lia].
   Qed.
 
   Theorem trans_like q i xs cp ct : Like i xs cp ct ->
